@@ -196,6 +196,8 @@ def run_property(pid, rules_mod, repo="/repo", tier="quick", configs=None, seed=
                 narrow.check(ctx, rep, pid)
                 narrow.check_noop(ctx, rep, pid)
                 narrow.check_errno(ctx, rep, pid)
+                narrow.check_lockpair(ctx, rep, pid)
+                narrow.check_undef(ctx, rep, pid)
             except (Broken, AnalysisBroken, mm.Unknown) as e:
                 rep.unk(pid + ".narrow", "-", str(e))
             except Exception as e:
